@@ -15,9 +15,17 @@ import warnings
 from testtools import matchers as M
 from testtools.matchers import DocTestMatches
 
-INT, STR, BYTES, LIST, DICT, OBJ, EXC, CALL, PATH, STRLIST, WARNLIST = (
-    "int", "str", "bytes", "list", "dict", "obj", "exc", "call", "path", "strlist", "warnlist",
+INT, STR, BYTES, LIST, DICT, OBJ, EXC, CALL, PATH, STRLIST, WARNLIST, LISTLIST, DICTLIST = (
+    "int", "str", "bytes", "list", "dict", "obj", "exc", "call", "path", "strlist", "warnlist", "listlist", "dictlist",
 )
+
+
+class Abort(BaseException):
+    """An application-defined BaseException that is not an Exception."""
+
+
+def _raise_abort():
+    raise Abort("stop everything")
 
 
 class Obj:
@@ -107,7 +115,9 @@ def domains(scratch=None):
         DICT: [{}, {"x": 1}, {"x": 1, "y": 2}, {"y": 1}, {"x": 2}, {"x": 1, "y": 0}, {"z": None}, {"x": 0}],
         OBJ: [Obj(a=1, b=2), Obj(a=1, b=1), Obj(a=0, b=2)],
         EXC: [_exc_info(ValueError("a")), _exc_info(KeyError("b")), _exc_info(KeyboardInterrupt())],
-        CALL: [_ret1, _raise_value, _raise_key, _warn_dep, _warn_two, _raise_kbi],
+        CALL: [_ret1, _raise_value, _raise_key, _warn_dep, _warn_two, _raise_kbi, _raise_abort],
+        LISTLIST: [[], [[]], [[1]], [[1], []], [[1, 2], [1]], [[2]]],
+        DICTLIST: [{}, {"x": []}, {"x": [1]}, {"x": [2], "y": []}],
         STRLIST: [[], ["a", "b"], ["a"]],
     }
     if scratch is not None:
@@ -194,6 +204,8 @@ def leaves(scratch=None):
     add(LIST, "Contains(1)", lambda: M.Contains(1), lambda v: 1 in v)
     add(LIST, "ContainsAll([1, 2])", lambda: M.ContainsAll([1, 2]), lambda v: 1 in v and 2 in v)
     add(LIST, "HasLength(2)", lambda: M.HasLength(2), lambda v: len(v) == 2)
+    add(LIST, "MatchesAny()", lambda: M.MatchesAny(), lambda v: False)
+    add(LIST, "MatchesAll()", lambda: M.MatchesAll(), lambda v: True)
     add(LIST, "MatchesPredicate(is_pair)", lambda: M.MatchesPredicate(is_pair, "%s is not a pair"), lambda v: len(v) == 2)
     # dicts
     add(DICT, "KeysEqual('x')", lambda: M.KeysEqual("x"), lambda v: sorted(v) == ["x"])
@@ -302,6 +314,17 @@ def combinators(children, scratch=None, first_only_variants=True):
             yield mk("MatchesDict({'x': %s, 'y': %s})" % (a.name, b.name), lambda a=a, b=b: M.MatchesDict({"x": a.make(), "y": b.make()}), lambda v, a=a, b=b: sorted(v) == ["x", "y"] and a.sem(v["x"]) and b.sem(v["y"]), DICT, [a, b])
             yield mk("ContainsDict({'x': %s, 'y': %s})" % (a.name, b.name), lambda a=a, b=b: M.ContainsDict({"x": a.make(), "y": b.make()}), lambda v, a=a, b=b: "x" in v and "y" in v and a.sem(v["x"]) and b.sem(v["y"]), DICT, [a, b])
             yield mk("ContainedByDict({'x': %s, 'y': %s})" % (a.name, b.name), lambda a=a, b=b: M.ContainedByDict({"x": a.make(), "y": b.make()}), lambda v, a=a, b=b: set(v) <= {"x", "y"} and all({"x": a, "y": b}[k].sem(v[k]) for k in v), DICT, [a, b])
+    lists = children.get(LIST, {"new": [], "all": []})
+    for a in lists["new"]:
+        if a.depth > 1:
+            continue  # keep the nested-collection level small
+        yield mk("AllMatch<list>(%s)" % a.name, lambda a=a: M.AllMatch(a.make()), lambda v, a=a: all(a.sem(x) for x in v), LISTLIST, [a])
+        yield mk("AnyMatch<list>(%s)" % a.name, lambda a=a: M.AnyMatch(a.make()), lambda v, a=a: any(a.sem(x) for x in v), LISTLIST, [a])
+        yield mk("MatchesListwise<list>([%s])" % a.name, lambda a=a: M.MatchesListwise([a.make()]), lambda v, a=a: len(v) == 1 and a.sem(v[0]), LISTLIST, [a])
+        yield mk("MatchesSetwise<list>(%s)" % a.name, lambda a=a: M.MatchesSetwise(a.make()), lambda v, a=a: len(v) == 1 and a.sem(v[0]), LISTLIST, [a])
+        yield mk("MatchesDict<list>({'x': %s})" % a.name, lambda a=a: M.MatchesDict({"x": a.make()}), lambda v, a=a: sorted(v) == ["x"] and a.sem(v["x"]), DICTLIST, [a])
+        yield mk("ContainsDict<list>({'x': %s})" % a.name, lambda a=a: M.ContainsDict({"x": a.make()}), lambda v, a=a: "x" in v and a.sem(v["x"]), DICTLIST, [a])
+        yield mk("ContainedByDict<list>({'x': %s})" % a.name, lambda a=a: M.ContainedByDict({"x": a.make()}), lambda v, a=a: set(v) <= {"x"} and ("x" not in v or a.sem(v["x"])), DICTLIST, [a])
     strs = children.get(STR, {"new": [], "all": []})
     for a in strs["new"]:
         yield mk("AfterPreprocessing(str, %s)" % a.name, lambda a=a: M.AfterPreprocessing(str, a.make()), lambda v, a=a: a.sem(str(v)), INT, [a])
@@ -419,7 +442,7 @@ def values_for(expr, doms):
         return [p for p in doms.get(PATH, []) if p.endswith(".tar")]
     vals = doms.get(t, [])
     if t == CALL and not expr.linear:
-        vals = [v for v in vals if v is not _raise_kbi]
+        vals = [v for v in vals if v is not _raise_kbi and v is not _raise_abort]
     if expr.dom is not None:
         vals = [v for v in vals if expr.dom(v)]
     return vals
